@@ -1,6 +1,7 @@
 """C19 - stored channel state is never lost or torn by the storage layer (structural part)."""
 from engine import *
 import provenance
+import mutations
 
 FS = 'lightning_persister::fs_store::common::FilesystemStoreInner::'
 FSO = 'lightning_persister::fs_store::common::FilesystemStore'
@@ -426,3 +427,4 @@ RULES = [
 	('19.z', 'named protocol / policy constants in this property\'s files have their reviewed values (rules/provenance.py)', lambda F: provenance.consts_for_property(F, 'C19', '19.z')),
 	('19.y', 'no reviewed function gained a swallowed error (the Result of a fallible in-crate call dropped; rules/provenance.py)', lambda F: provenance.dr_for_property(F, 'C19', '19.y')),
 ]
+RULES.append(('19.M', 'collection mutations: every reviewed (function, stored collection, mutator class: add / remove / filter / empty / swap / order) triple is still present - an entry that is no longer removed, inserted or drained on one path (rules/mutations.py)', lambda F: mutations.for_property(F, 'C19', '19.M')))
